@@ -106,6 +106,9 @@ impl C19 {
         if c.via_grl {
             st.count("cases_built_from_grl_text");
         }
+        if !c.flat_decoys.is_empty() {
+            st.count("cases_with_flat_facts_named_like_a_dotted_path(other value than the object field)");
+        }
         if o.rules_fired > 0 && o.rules_not_fired > 0 && o.levels_with_2plus_rules > 0 {
             st.nontrivial(hash_of(&c.to_json().to_string()));
             st.sample(|| c.to_json());
@@ -306,6 +309,7 @@ impl Check for C19 {
             "'evaluating the same enabled rules one by one' is observed as execute_parallel with ParallelConfig.enabled = false (the engine's own sequential path) and, independently, as a three-valued reference evaluation (Kleene; a leaf on a missing field is Undefined and such rules are compared differentially only)".into(),
             "actions of generated rules write only Out.* keys which no condition reads, so verdicts are schedule-independent by construction (Facts is shared between workers)".into(),
             "the order of execution_contexts inside one salience level is unconstrained".into(),
+            "one case in 6 also stores flat facts whose name is the dotted path of an object field, with another value (Facts::set(\"F.i0\", v)); a condition's `F.i0` is read as the field of the object fact F when there is one (Facts::get_nested; the flat name is the fallback that ParallelRuleEngine, RustRuleEngine::evaluate_single_condition and Facts document), so these must change no verdict".into(),
             "'it always returns' is decided by the deadlock watchdog (no thread of the process runnable, no CPU used, no progress over 12 consecutive samples), natively; by Miri's deadlock detection in the thorough tier".into(),
             "a schedule-dependent violation is replayed by re-executing the case up to 400 times under perturbation".into(),
         ]
